@@ -937,6 +937,34 @@ func main() {
 		return
 	}
 
+	if ctx.Prop == "C02" {
+		// C02 uses this domain for one clause only - which sessions end when their last connection goes away, multicast
+		// included: the ledger scenarios (the model correspondence) of the configurations that offer multicast
+		var wg sync.WaitGroup
+		var outs []*workerOut
+		var mu sync.Mutex
+		for _, cfg := range configs {
+			if !cfg.Mcast {
+				continue
+			}
+			ls := ctx.Rng.U64()
+			wg.Add(1)
+			go func(cfg childCfg) {
+				defer wg.Done()
+				o := ledgerWorker(cfg, ctx.Budget(90, 1500), ls, -1)
+				mu.Lock()
+				outs = append(outs, o)
+				mu.Unlock()
+			}(cfg)
+		}
+		wg.Wait()
+		for _, o := range outs {
+			record(ctx, o)
+		}
+		ctx.Extra("configurations", len(outs))
+		return
+	}
+
 	// 1. corpus: the known findings, each alone in a fresh child (deterministic)
 	var corpusOut *workerOut
 	corpusDone := make(chan struct{})
